@@ -47,6 +47,22 @@ CHECKS = {
  "C07": ("exploration", HIST + " + differential execution of the same (receiver, pair sequence) under every class of legal size_hint report (simulated source seam), simulated memory ceiling",
          "Half of the runs are histories biased to extend/append/From/FromIterator/conversions against the model (first-wins / last-wins / append rule, other queue emptied and reusable, order oracles); the other half execute one (state, pairs) case under 11-12 size_hint classes up to usize::MAX and require no panic or abort, identical outcome including item values, model priorities and a correctly ordered result. Sampling, not proof.",
          "Trusted: the reference model; the 1 GiB per-request memory ceiling of the simulated allocator.", "3,4.C07"),
+
+ "C05": ("exploration", "simulated clock = comparator ticks: every operation call is a request with a deadline in ticks, measured at pairs of sizes on seeded priority patterns (absolute deadlines and growth conditions)",
+         "Each run measures > 400 individual calls (all single-element operations on elements taken from every heap level and driven to both extremes, peeks/lookups, all bulk rebuilds) at two sizes up to 2^16 (quick) / 2^20 (thorough); deadlines 12*ceil(log2(n+1))+16, 0 or 1, 10n+16, plus growth between the sizes. Sampling, not proof; says nothing about wall-clock time.",
+         "Only Ord::cmp calls are counted; generous constants, the growth conditions carry the asymptotic claim.", "3,4.C05"),
+ "C14": ("exploration", HIST + " + twin simulation: clone taken at a seeded point, lock-step and divergent continuations, same contents rebuilt through another history / capacity / hasher",
+         "Clone == source (both directions), identical return values (ties included) under every subsequent step, mutating either never changes the other; queues with equal contents built through different histories, capacities and hashers compare equal, neighbours differing in one priority or one item compare unequal; reflexive, symmetric, transitive on the instances built. Sampling, not proof.",
+         "Trusted: the reference model and the trace comparison.", "3,4.C14"),
+ "C15": ("exploration", HIST + " + storage-fault injection on serialized queues (record duplication, loss, reordering, splicing, truncation, bit flips) and arbitrary pair sequences through JSON and a serde sequence deserializer with/without length hint",
+         "Round trips from visited states in all four kind directions; any well-typed pair sequence with repeats yields Err or a valid queue holding every distinct item once with one of its priorities; damaged serializations yield Err or a valid, ordered, usable queue; never a panic. Sampling, not proof.",
+         "Hostile length hints of binary formats are outside the statement and not injected.", "3,4.C15"),
+ "C17": ("fault_enumeration", HIST + " + lock-step twin simulation with capacity operations, and enumeration of allocation-failure points inside try_reserve* through the simulated allocator",
+         "A twin that receives with_capacity/reserve/reserve_exact/try_reserve/try_reserve_exact/shrink_to_fit calls must return identical values to one that never does; capacity inequalities after success; requests near usize::MAX and above the simulated memory ceiling must be Err without panic; for one try_reserve per history every allocation index is failed once and persistently: never a panic or abort, Err or Ok-with-the-guarantee, behaviour afterwards unchanged. Histories and insertion points are sampled.",
+         "Trusted: the global-allocator wrapper; allocation failure is injected only inside try_reserve*.", "3,4.C17"),
+ "C18": ("exploration", "one explicit history executed under 8 hasher configurations (4 SipHash keyings, multiplicative via with_hasher and with_default_hasher, all-colliding, real RandomState), return-value traces compared modulo tie choice",
+         "The trace of every return value must agree across all hashers (priority of extracted elements must agree, the item may differ among ties); a panic or oracle failure under one hasher only is a violation. Sampling, not proof.",
+         "RandomState keys cannot be controlled; everything else derives from the seed.", "3,4.C18"),
 }
 
 def main():
